@@ -36,6 +36,12 @@ M = {
  "C13-1": ("C13", "a list passed to sign/verify/precompute that contains an entry marked omitFromKeys", ["C13", "C14"]),
  "C13-2": ("C13", "two threads: caller Y's precompute between caller X's precompute and X's read of the shared static", ["C13", "C20"]),
  "C13-3": ("C13", "keygen/qualify -> resamplekey(supportFurtherQualification=false) -> sign a non-zero message -> verify", ["C13", "C11"]),
+ "C12-1": ("C12", "multi-step: parent has the slot free; adjust_nondelegable with a to-list that hides the slot; a later qualification assigns it; decrypt a ciphertext with the slot set", ["C12", "C14"]),
+ "C12-2": ("C12", "32-bit-word build AND two ids that agree in bits 0..127, differ above bit 127 and have bits 64..127 all zero", ["C12", "C11", "C03"]),
+ "C12-3": ("C12", "two concurrent callers: A preempted inside precompute between its first and last attribute term while B completes an encrypt for another list (static memo)", ["C12", "C20"]),
+ "C19-1": ("C19", "32-bit-word build (-U__SIZEOF_INT128__): C structs over-aligned relative to the C++ types", ["C19"]),
+ "C19-2": ("C19", "uncompressed AND validating AND an invalid encoding through the C point-unmarshal wrappers", ["C19", "C09"]),
+ "C19-3": ("C19", "two consecutive C calls of compute_id_from_hash whose hashes share the first 32 bytes (stale cache in the C wrapper only)", ["C19", "C20"]),
  "C17-1": ("C17", "secret-key buffer whose header byte is non-zero but not 1 and whose length matches the no-signature layout; over-read of 48/96 bytes", ["C17", "C15"]),
  "C17-2": ("C17", "LQ-IBE master key marshalled/unmarshalled at a buffer address that is not a multiple of 16", ["C17"]),
  "C17-3": ("C17", "an object whose last element is the point at infinity, re-marshalled in compressed form into an exactly sized buffer", ["C17"]),
